@@ -25,6 +25,7 @@ CHECKS["C04"] = {
     "jobs": [
         {"pkg": MUX, "run": "^TestVerif_C04_Lengths$"},
         {"pkg": MUX, "run": "^TestVerif_C04_Random$", "checks": {"quick": 3000, "thorough": 400000}, "shards": {"thorough": 16}},
+        {"pkg": MUX, "run": "^TestVerif_C04_OnTheWire$", "checks": {"quick": 300, "thorough": 30000}, "shards": {"thorough": 16}, "timeout": {"quick": 600}},
     ],
 }
 
